@@ -31,6 +31,9 @@ pub enum Profile {
     /// one symbol occurs exactly min(2^lg + plus, n - (d-1)) times, the others share the rest
     /// evenly: counts just above a power of two (count arithmetic in narrow integer types)
     DominantAt(u8, u16),
+    /// one symbol is k times as frequent as each of the others, which are exactly tied (the
+    /// optimal code then mixes two lengths inside the tie class)
+    HeavyTied(u8),
 }
 
 #[derive(Clone, Copy, Debug, PartialEq, Eq, Hash, Serialize, Deserialize)]
@@ -256,6 +259,13 @@ impl Recipe {
         if let Profile::DeepChains(c) = self.profile {
             return deep_chain_counts(self.n, d, c as usize);
         }
+        if let Profile::HeavyTied(k) = self.profile {
+            let k = k.max(2) as usize;
+            let c = (self.n / (k + d - 1)).max(1);
+            let mut counts = vec![c; d];
+            counts[0] = self.n - c * (d - 1);
+            return counts;
+        }
         if let Profile::DominantAt(lg, plus) = self.profile {
             // a single symbol takes everything
             let dom = if d == 1 { self.n } else { ((1usize << lg.min(40)) + plus as usize).min(self.n - (d - 1)) };
@@ -280,7 +290,7 @@ impl Recipe {
             Profile::Fib => fib_weights(d),
             Profile::OneRare => (0..d).map(|j| if j == 0 { 1e9 } else { 1e-9 }).collect(),
             Profile::TwoFrequent => (0..d).map(|j| if j < 2 { 1e6 } else { 1.0 }).collect(),
-            Profile::Deep(_) | Profile::DeepChains(_) | Profile::DominantAt(..) => unreachable!(),
+            Profile::Deep(_) | Profile::DeepChains(_) | Profile::DominantAt(..) | Profile::HeavyTied(_) => unreachable!(),
             Profile::Ties(g) => {
                 let g = g.max(1) as usize;
                 (0..d).map(|j| (1u64 << ((j / g).min(40))) as f64).collect()
@@ -545,6 +555,7 @@ fn profile() -> BoxedStrategy<Profile> {
         2 => Just(Profile::Deep(4)),
         2 => Just(Profile::Deep(2)),
         1 => Just(Profile::DeepChains(2)),
+        1 => prop_oneof![Just(2u8), Just(3), Just(8), 2u8..40].prop_map(Profile::HeavyTied),
         1 => (prop_oneof![Just(8u8), Just(12), Just(16), Just(17), Just(18), Just(20)], prop_oneof![Just(0u16), Just(1), 0u16..300]).prop_map(|(lg, plus)| Profile::DominantAt(lg, plus)),
     ]
     .boxed()
